@@ -863,16 +863,50 @@ def rule_topo(ctx):
         r.exempt(key, f.loc, "the traversal no longer inserts by bisection: a different algorithm, "
                  "not decided by this rule")
         return r
+    # the parent's position: ``node = queue[i]`` in the scanning loop
+    pos_names = set()
+    for n in walk_local(f.node):
+        if isinstance(n, ast.Assign) and isinstance(n.value, ast.Subscript) and \
+                isinstance(n.value.slice, ast.Name) and isinstance(n.value.value, ast.Name):
+            pos_names.add(n.value.slice.id)
+
+    def bound_ok(e):
+        """the bound is the parent's position (or smaller): ``i``, ``i - k``, ``min(i, ...)``"""
+        if isinstance(e, ast.Name):
+            return e.id in pos_names or None
+        if isinstance(e, ast.BinOp) and isinstance(e.op, ast.Sub) and isinstance(e.left, ast.Name) \
+                and e.left.id in pos_names and isinstance(e.right, ast.Constant) and e.right.value >= 0:
+            return True
+        if isinstance(e, ast.BinOp) and isinstance(e.op, ast.Add) and isinstance(e.left, ast.Name) \
+                and e.left.id in pos_names and isinstance(e.right, ast.Constant) and e.right.value > 0:
+            return False
+        if isinstance(e, ast.Call) and dotted(e.func) == "min":
+            return True if any(bound_ok(a) for a in e.args) else None
+        return None
+
     for c in calls:
         bounded = False
+        verdicts = []
         if c.args and isinstance(c.args[0], ast.Subscript) and isinstance(c.args[0].slice, ast.Slice) \
                 and c.args[0].slice.upper is not None:
-            bounded = True                                    # bisect(scores[:i], s)
-        if len(c.args) >= 4 or any(k.arg == "hi" for k in c.keywords):
-            bounded = True                                    # bisect(scores, s, lo, hi)
+            verdicts.append(bound_ok(c.args[0].slice.upper))          # bisect(scores[:i], s)
+        if len(c.args) >= 4:
+            verdicts.append(bound_ok(c.args[3]))                      # bisect(scores, s, lo, hi)
+        for k in c.keywords:
+            if k.arg == "hi":
+                verdicts.append(bound_ok(k.value))
         par = f.module.parents.get(c)
         if isinstance(par, ast.Call) and dotted(par.func) == "min":
-            bounded = True                                    # min(i, bisect(scores, s))
+            verdicts.append(True if any(bound_ok(a) for a in par.args if a is not c) else None)
+        if any(v is False for v in verdicts):
+            r.violation(key, C.loc(f, c), f"`{C.unparse(c)}`: the search range includes the parent's own "
+                        "position (off by one): a child that scores at least as high as its parent is "
+                        "queued after it")
+            continue
+        if verdicts and all(v is None for v in verdicts):
+            raise AnalysisError(f"{f.qual}: cannot relate the bisection bound in `{C.unparse(c)}` to the "
+                                f"parent's position")
+        bounded = any(v is True for v in verdicts)
         if bounded:
             r.ok(key, C.loc(f, c), "insertion position bounded by the parent's position")
         else:
